@@ -1026,3 +1026,95 @@ func TestVerif_C15_CloseWithSilentClients(t *testing.T) {
 		}
 	})
 }
+
+// c15GateLogger holds the mux's "close tcp packet conn by alive timeout" warning until the checker lets it pass:
+// the expiry callback is then known to be running, between the timer firing and the close.
+type c15GateLogger struct {
+	logging.LeveledLogger
+	entered chan struct{}
+	release chan struct{}
+}
+
+func (l *c15GateLogger) Warn(msg string) {
+	if strings.Contains(msg, "alive timeout") {
+		select {
+		case l.entered <- struct{}{}:
+		default:
+		}
+		<-l.release
+	}
+}
+
+// TestVerif_C15_ClaimRacesExpiry: a provisional connection (client first, unknown ufrag) whose expiry timer has
+// fired but whose expiry callback has not closed it yet is claimed by GetConnByUfrag. A claim that succeeded
+// stands: the connection and its client stay attached and usable.
+func TestVerif_C15_ClaimRacesExpiry(t *testing.T) {
+	st := vfNewStats(t)
+	lf := logging.NewDefaultLoggerFactory()
+	lf.DefaultLogLevel = logging.LogLevelDisabled
+	rapid.Check(t, func(rt *rapid.T) {
+		alive := time.Duration(rapid.IntRange(1, 20).Draw(rt, "aliveMs")) * time.Millisecond
+		writeBuf := rapid.SampledFrom([]int{0, 1 << 20}).Draw(rt, "writeBuffer")
+		gl := &c15GateLogger{LeveledLogger: lf.NewLogger("verif"), entered: make(chan struct{}, 1), release: make(chan struct{})}
+		ln := newC15Listener()
+		mux := NewTCPMuxDefault(TCPMuxParams{Listener: ln, Logger: gl, ReadBufferSize: 64, WriteBufferSize: writeBuf, FirstStunBindTimeout: time.Hour, AliveDurationForConnFromStun: alive})
+		released := false
+		a, b := net.Pipe()
+		remote := &net.TCPAddr{IP: net.IPv4(198, 51, 100, 9), Port: 30001}
+		cl := &c15Client{id: 0, conn: a, remote: remote, kind: "valid", ufrag: "uz", done: make(chan struct{})}
+		go cl.reader()
+		defer func() {
+			if !released {
+				close(gl.release)
+			}
+			_ = a.Close()
+			done := make(chan struct{})
+			go func() { _ = mux.Close(); close(done) }()
+			select {
+			case <-done:
+			case <-time.After(10 * time.Second):
+			}
+		}()
+		localIP := net.IPv4(10, 0, 0, 1)
+		ln.ch <- &c15Conn{Conn: b, local: &net.TCPAddr{IP: localIP, Port: 8443}, remote: remote}
+		_ = a.SetWriteDeadline(time.Now().Add(20 * time.Second))
+		_, _ = a.Write(c15Frame(c15StunBinding("uz:peer", true, stun.MethodBinding)))
+		select {
+		case <-gl.entered: // the expiry callback is running, it has not closed anything yet
+		case <-time.After(20 * time.Second):
+			st.Inconclusive()
+			rt.Fatalf("VERIF-INCONCLUSIVE: the provisional connection's timer did not fire")
+		}
+		h, err := mux.GetConnByUfrag("uz", false, localIP)
+		released = true
+		close(gl.release)
+		desc := fmt.Sprintf("alive=%s writeBuffer=%d claim=%v", alive, writeBuf, err)
+		st.Record(vfHashStr(desc), err == nil, fmt.Sprintf("claimed:%v", err == nil))
+		if st.WantSample() {
+			st.Sample(func() string { return desc })
+		}
+		if err != nil {
+			return // the mux refused the claim: nothing to keep
+		}
+		defer h.Close() //nolint:errcheck
+		time.Sleep(5 * time.Millisecond)
+		for k := 0; k < 50; k++ {
+			runtime.Gosched()
+		}
+		mux.mu.Lock()
+		pc, ok := mux.getConn("uz", false, localIP)
+		mux.mu.Unlock()
+		has := false
+		if ok {
+			pc.mu.Lock()
+			_, has = pc.conns[remote.String()]
+			pc.mu.Unlock()
+		}
+		if !ok || !has || pc.isClosed() {
+			st.Fail(rt, "C15/provisional/claimed-connection-expired", "%s: GetConnByUfrag succeeded while the expiry callback was already running; afterwards the claimed connection is registered=%v, client attached=%v", desc, ok, has)
+		}
+		if _, werr := h.WriteTo([]byte("reply"), remote); werr != nil {
+			st.Fail(rt, "C15/provisional/claimed-connection-expired", "%s: writing on the claimed connection: %v", desc, werr)
+		}
+	})
+}
